@@ -239,3 +239,63 @@ pub fn big(p: &ProgramDef, rng: &mut Rng) -> Input {
    res.sort_by_key(|(i, _)| *i);
    res
 }
+
+/// ternary eqrel workloads: a few keys, most elements introduced early under every key, a
+/// chain-shaped `f` (congruence merges one step per iteration, and keys handing facts to the next
+/// key), `big` dense enough that a simple join against it iterates the eqrel side
+pub fn eq_tern(p: &ProgramDef, rng: &mut Rng) -> Input {
+   let dom = rng.range(4, 8);
+   let nkeys = rng.range(1, 3);
+   let mut res = small(p, rng);
+   let mut set = |name: &str, rows: Vec<Row>, res: &mut Input| {
+      if let Some(i) = p.rel_index(name) {
+         res.retain(|(j, _)| *j != i);
+         res.push((i, rows));
+      }
+   };
+   let mut kpairs: Vec<Row> = vec![];
+   for k in 0..nkeys {
+      for x in 0..dom {
+         if rng.chance(400) {
+            kpairs.push(vec![Val::I(k as i64), Val::I(x as i64), Val::I(x as i64)]);
+         }
+      }
+      for _ in 0..rng.range(1, 3) {
+         kpairs.push(vec![Val::I(k as i64), Val::I(rng.below(dom) as i64), Val::I(rng.below(dom) as i64)]);
+      }
+   }
+   rng.shuffle(&mut kpairs);
+   set("kpair", kpairs, &mut res);
+   let mut f: Vec<Row> = vec![];
+   let stride = rng.range(1, 2);
+   for x in 0..dom {
+      if rng.chance(800) {
+         f.push(vec![Val::I(x as i64), Val::I(((x + stride) % (dom + 1)) as i64)]);
+      }
+   }
+   for _ in 0..rng.below(3) {
+      f.push(vec![Val::I(rng.below(dom) as i64), Val::I(rng.below(dom) as i64)]);
+   }
+   rng.shuffle(&mut f);
+   set("f", f, &mut res);
+   let nodes: Vec<Row> = (0..dom).filter(|_| rng.chance(600)).map(|x| vec![Val::I(x as i64)]).collect();
+   set("node", nodes, &mut res);
+   let keys: Vec<Row> = (0..nkeys + 1).filter(|_| rng.chance(800)).map(|k| vec![Val::I(k as i64)]).collect();
+   set("key", keys, &mut res);
+   let mut big: Vec<Row> = vec![];
+   let density = *rng.pick(&[150u64, 500, 900]);
+   for x in 0..dom {
+      for y in 0..dom {
+         if rng.chance(density) {
+            big.push(vec![Val::I(x as i64), Val::I(y as i64)]);
+         }
+      }
+   }
+   set("big", big, &mut res);
+   let cand: Vec<Row> = (0..rng.range(2, 8))
+      .map(|_| vec![Val::I(rng.below(nkeys) as i64), Val::I(rng.below(dom) as i64), Val::I(rng.below(dom) as i64)])
+      .collect();
+   set("cand", cand, &mut res);
+   res.sort_by_key(|(i, _)| *i);
+   res
+}
